@@ -66,7 +66,9 @@ def isExpired (e : Entry R) (now : Int) : Bool :=
 
 /-- `newTimedValue` with Burrow's durations -/
 def newEntry (cfg : Cfg) (v : Option R) (now : Int) : Entry R :=
-  { value := v, expiry := if cfg.expire > 0 then some (now + cfg.expire * 1000) else none, lookedAt := now }
+  -- expire-cache = 0 is handed to goswarm as one nanosecond (a zero duration would mean "never expires"): in the
+  -- model's milliseconds the entry expires as soon as the clock has moved
+  { value := v, expiry := some (now + cfg.expire * 1000), lookedAt := now }
 
 /-- goswarm `update`: run the lookup, store per goswarm's rules, return the entry to answer with -/
 def update (cfg : Cfg) (c : Cache R) (k : Name) (now : Int) (v : Option R) : Cache R × Entry R :=
